@@ -123,6 +123,10 @@ def check (x : Step) : List (String × String) :=
     (x.granted > 0 && post.st == 1 && x.inact > 0 && !(decide (post.timeout - now ≤ x.inact + 2 * second) && decide (post.timeout - now ≥ x.inact - 2 * second) && decide (post.expire ≤ post.timeout)),
       "C06.accepted_after_idle", "refresh did not re-arm the inactivity timeout to now + timeout"),
     (post.st == 1 && x.inact == 0 && post.timeout != 0, "C06.accepted_after_idle", "timeout armed although inactivity is off"),
+    -- state invariant, whoever wrote the entry (login included): with inactivity on, the timeout is armed at (login or last refresh) + inactivity timeout
+    -- and the token never outlives it — otherwise the session would be accepted after the inactivity timeout has passed
+    (post.st == 1 && x.inact > 0 && !(decide ((post.timeout - (post.refreshed + x.inact)).natAbs ≤ 2000000000) && decide (post.expire ≤ post.timeout)),
+      "C06.accepted_after_idle", s!"inactivity is on but the stored timeout ({post.timeout - post.refreshed} after the last refresh) is not last refresh + inactivity timeout ({x.inact}), or the token outlives it"),
     -- C08 ---------------------------------------------------------------------------------------------------------------
     (x.contacted > 0 && !((x.op == "proxy" || x.op == "fwdauth") && autoRefreshAvailable x || x.op == "refresh"), "C08.wrong_mode." ++ x.op,
       s!"refresh grant during {x.op} in mode {x.mode} fwd={x.cfwd}"),
